@@ -342,6 +342,12 @@ def c04(ck):
                                 "socket": simpl[cid][:300], "memory": impl[cid][:300]})
 
 
+def c04_full(ck):
+    c04(ck)
+    import check_client
+    check_client.c04_client(ck)
+
+
 def streams_for_c02(rng, quick):
     """(name, service, byte stream) list"""
     svc = DEFAULT_SVC
